@@ -420,3 +420,4 @@ CONTRACTS.append(annotate)
 from contracts import graph_utils as _gu
 CONTRACTS.append(_gu.collect_residues('C19'))
 CONTRACTS.append(_gu.partition_graph('C19'))
+CONTRACTS.append(_gu.items_with_common_values('C19'))
